@@ -296,6 +296,25 @@ theorem mapping_correct (sel : BackendSel) (ctx : NodeCtx) (names : List String)
         subst hkk
         exact ⟨r, ty, pv', hz, ⟨o', ho', hk', hty.symm⟩, hu, by rw [hval]; exact hpq⟩
 
+/-- **fold_correct (one construction step; partial).** *If* the backend is extensionally the run-time
+    semantics on this constant-fed singleton model - i.e. whatever it lists under an output name
+    converts to that output's run-time value `sem k` - *then* every value attached to an output Var
+    is that Var's run-time value. Together with `value_is_input_independent` (the fed values do not
+    depend on any model input) this is the folding argument for one node; the composition over whole
+    histories with C01's denotation is not proved here (the oracle compares with onnxruntime). -/
+theorem fold_correct_partial (sel : BackendSel) (ctx : NodeCtx) (names : List String)
+    (vals : List RefVal) (res : List (OutVar × Bool)) (sem : String → Option Payload)
+    (h : construct Variant.fixed sel .standard ctx (.ret names vals) = .ok res)
+    (hfresh : ∀ o ∈ ctx.outputs, o.value = none)
+    (hin : ∀ n ∈ names, ∀ i ∈ ctx.inputs, i.name ≠ n)
+    (hsem : ∀ k r t pv', (k, r) ∈ names.zip vals → (∃ o ∈ ctx.outputs, o.key = k ∧ o.type = some t) →
+      unwrapFeed sel t r = .ok pv' → sem k = some pv'.value) :
+    ∀ ow ∈ res, ∀ pv, ow.1.value = some pv →
+      ∃ q, sem ow.1.key = some q ∧ pv = PropValue.new pv.type q := by
+  intro ow how pv hpv
+  obtain ⟨r, t, pv', h1, h2, h3, h4⟩ := mapping_correct sel ctx names vals res h hfresh hin ow how pv hpv
+  exact ⟨pv'.value, hsem _ r t pv' h1 h2 h3, h4⟩
+
 /-! ### the pinned tree -/
 
 /-- Pinned: a Sequence-typed Var ends up with a value that does not conform to its type. -/
